@@ -6,13 +6,14 @@
 //! case    = as C07 ( N0 Nversion EVENTS SETS CHAINS )
 //! outcome = ( N0 RESULT ORACLE ) | ( N1 N0 ORACLE )       all runs agree
 //!         | ( N3 A B ORACLE )                              two runs disagree (A, B their results)
+//! large scenarios: case ( N7 Nsize ), outcome ( N0 ( N<all runs agree> S<power-levels winner> ) )
 use std::sync::Arc;
 
 use crate::{
     c07::{call_resolve, case_sx, decode_case, histories, oracle, outcome_sx, pick_subsets, scenario_chain_through_unconflicted,
-          scenario_concurrent_moderators, scenario_mainline, smap_sx, ResolveCase, SMap, Sim},
+          scenario_concurrent_moderators, scenario_long_fork, scenario_mainline, smap_sx, ResolveCase, SMap, Sim},
     rng::Rng,
-    sx::Sx,
+    sx::{guarded, Sx},
     Emitter,
 };
 
@@ -71,6 +72,40 @@ pub fn run_many(c: &ResolveCase, seed: u64) -> Option<Sx> {
     Some(outcome_sx(&first, orc))
 }
 
+/// A scenario too large for the wire format and the list-based model: the case is its size only, the
+/// outcome says whether all runs agreed and which power-levels event won.
+/// case ( N7 Nn )   outcome ( N0 N<all runs agree> S<winning m.room.power_levels event> )
+fn run_large(n: usize, seed: u64) -> Sx {
+    let c = Arc::new(scenario_long_fork(n));
+    let store = Arc::new(c.store());
+    let mut handles = vec![];
+    for t in 0..THREADS {
+        let (c, store) = (c.clone(), store.clone());
+        handles.push(std::thread::spawn(move || {
+            let mut r = Rng::new(seed ^ (0xC06 + t as u64 * 104_729));
+            (0..RUNS_PER_THREAD)
+                .map(|_| {
+                    let order = if r.chance(1, 2) { vec![0, 1] } else { vec![1, 0] };
+                    call_resolve(&c, &store, &order)
+                })
+                .collect::<Vec<_>>()
+        }));
+    }
+    let mut all: Vec<Result<SMap, ()>> = vec![];
+    for h in handles {
+        match h.join() {
+            Ok(v) => all.extend(v),
+            Err(_) => return Sx::panic(),
+        }
+    }
+    let agree = all.iter().all(|r| *r == all[0]);
+    let winner = match &all[0] {
+        Ok(m) => m.get(&("m.room.power_levels".to_owned(), String::new())).map(|i| i.to_string()).unwrap_or_default(),
+        Err(()) => "error".to_owned(),
+    };
+    Sx::ok(Sx::L(vec![Sx::b(agree), Sx::s(&winner)]))
+}
+
 fn emit(em: &mut Emitter, tag: &str, c: &ResolveCase, seed: u64) {
     if let Some(out) = run_many(c, seed) {
         em.emit(tag, case_sx(c), out);
@@ -86,6 +121,12 @@ pub fn run(tier: &str, seed: u64, em: &mut Emitter) {
             emit(em, "systematic", &scenario_concurrent_moderators(tx, ty), r.next());
         }
     }
+    // long one-sided forks (sizes around the powers of two and ten that caps and batch sizes like)
+    let sizes: &[usize] = if tier == "thorough" { &[40, 130, 260, 520, 1030, 2100, 4200, 8300, 16500] } else { &[70, 300, 1100, 4500] };
+    for n in sizes {
+        let (n, sd) = (*n, r.next());
+        em.emit("large-fork", Sx::L(vec![Sx::N(7), Sx::N(n as i128)]), guarded(move || run_large(n, sd)));
+    }
     for h in 0..histories(tier) {
         let steps = 6 + r.below(22);
         // histories differ from C07's (different seed mix)
@@ -98,6 +139,12 @@ pub fn run(tier: &str, seed: u64, em: &mut Emitter) {
 }
 
 pub fn replay(case: &Sx) -> Option<Sx> {
+    if let Some([k, n]) = case.as_list() {
+        if k.as_int() == Some(7) {
+            let n = n.as_int()? as usize;
+            return Some(guarded(move || run_large(n, 1)));
+        }
+    }
     let c = decode_case(case)?;
     run_many(&c, 1)
 }
